@@ -15,7 +15,9 @@ spec -> code, four specifications, every record replayed by harness/cmd/c17:
 
 import concurrent.futures
 
-IDENT_MODES = ["us", "uh", "rm", "sn", "split"]
+# user IDs: both parses of the same string in one process, in both orders (historical then strict, strict then
+# historical): a verdict must not depend on what was parsed before
+IDENT_MODES = ["uhs", "ush", "rm", "sn", "split"]
 
 
 def run(ctx):
@@ -48,6 +50,7 @@ def run(ctx):
     jobs = [("Ident_gen", "Ident_gen_free_%s.cfg" % t, "ident"), ("Ident_gen", "Ident_gen_struct_%s.cfg" % t, "ident"),
             ("Base64_gen", "Base64_gen_%s.cfg" % t, "b64"),
             ("Limits_gen", "Limits_gen_single_%s.cfg" % t, "limits"), ("Limits_gen", "Limits_gen_pair_%s.cfg" % t, "limits"),
+            ("Limits_gen", "Limits_gen_create_%s.cfg" % t, "limits"),
             ("VersionTable_gen", "VersionTable_gen_%s.cfg" % t, "table")]
     if t == "quick":
         # quick: the full single-field and pair families run for one version per untrusted constructor (1, 10, 12;
